@@ -68,7 +68,7 @@ def run(ck, tier):
                 ck.undecided("R-C03-apply", key, f.loc(r["ln"]), r["what"] + ": not decided (opaque ingredient); facts %s" % r["facts"][:6])
             else:
                 ck.refuted("R-C03-apply", key, f.loc(r["ln"]), "%s fails inside the precondition, e.g. %s" % (r["what"], r["model"]))
-        ck.floor("R-C03-apply", "fallible operations in Suggestion::apply", n, 3)
+        ck.floor("R-C03-apply", "fallible operations in Suggestion::apply", n, 1)
     _copy_only(ck, p, byk)
     _span_sources(ck, p)
     # re-basing: shared rule
@@ -246,7 +246,7 @@ def _span_sources(ck, p):
                                     stack += list(f.blocks[o[1]]["t"]["args"])
                     if "kind" in names:
                         bad.append((keyname(p, f), f.loc(sx["ln"])))
-    ck.floor(rule, "Lint literals in harper_core::linting", n, 40)
+    ck.floor(rule, "Lint literals in harper_core::linting", n, 20)
     seen = set()
     for fn, where in bad:
         if fn in seen:
